@@ -44,7 +44,7 @@ func readRR(text string) (panicked string, err error, timedOut bool) {
 }
 
 func prefixes(out string) {
-	w := hx.NewWriter(out)
+	w := newWriter(out)
 	defer w.Close()
 	var sum hx.Summary
 	types := map[string]bool{}
@@ -74,7 +74,7 @@ func prefixes(out string) {
 				pn, err, to := readRR(text)
 				switch {
 				case to:
-					sum.Mis("zone/hostile:timeout:"+fam, "dns.ReadRR did not return within the budget, three times in a row", cs)
+					hang(&sum, fam, "dns.ReadRR", cs)
 				case pn != "":
 					sum.Mis("zone/hostile:panic:"+fam, "dns.ReadRR panicked: "+pn, cs)
 				case err != nil:
